@@ -232,3 +232,24 @@ def run(ck):
             early.append(r_)
     ck.ob('C23.nack', 'C23.nack/always-sent', len(sends23) == 1 and not early, sna.loc(early[0]) if early else sna.loc(),
           'send_negative_ack returns without sending only when no session key exists: every refused request is answered')
+
+    # ---- the configured limits are used as configured: nothing rewrites them (0 means "no limit" for each of the two independently) ----
+    from sa.flow import field_accesses as _fa23
+    LIM = ('ephemeralnet::Config::upload_max_parallel_transfers', 'ephemeralnet::Config::upload_max_transfers_per_peer')
+    lim_writes = []
+    for f in P.fns:
+        for i, m_, w_ in _fa23(f):
+            if w_ and m_ in LIM and f.kind not in ('ctor',):
+                lim_writes.append((f, i, m_))
+    ck.ob('C23.limit', 'C23.limit/limits-not-rewritten', not lim_writes, lim_writes[0][0].loc(lim_writes[0][1]) if lim_writes else '',
+          'no function of the node assigns Config::upload_max_parallel_transfers / upload_max_transfers_per_peer (a "per-peer <= overall" clamp turns a '
+          'per-peer limit into "unlimited" whenever the overall limit is 0)' + ('' if not lim_writes else ' — written in %s' % lim_writes[0][0].name))
+
+    # ---- admission and slot accounting are one critical section: process_pending_uploads never drops its lock in between ----------------
+    ppu = P.fn(N + 'process_pending_uploads')
+    ck.touch(ppu)
+    unl = [i for i in ppu.walk() if ppu.nodes[i]['k'] == 'CXXMemberCallExpr' and (ppu.nodes[i].get('callee') or '').split('::')[-1] in ('unlock', 'release')
+           and 'lock' in (ppu.nodes[i].get('callee') or '')]
+    ck.ob('C23.gate', 'C23.gate/process_pending_uploads/lock-held-throughout', not unl, ppu.loc(unl[0]) if unl else ppu.loc(),
+          'process_pending_uploads keeps the scheduler lock from the admission test to note_upload_start / dispatch (releasing it lets a second request '
+          'pass the same test before the first is counted)')
